@@ -86,7 +86,10 @@ TEMPLATES = TERA_BUILTINS + ["{{ semver }}", "{{ pep440 }}", "{{ major }}.{{ min
              "{{ custom.a.b.c }}", "{{ sanitize(value=bumped_branch, preset='nope') }}", "{{ sanitize(value='a b', preset='nope') }}", "{{ sanitize(value='a b', preset='dotted', separator='-') }}",
              "{{ sanitize(value=true) }}|{{ hash(value=false, length=4) }}|{{ prefix(value=true, length=2) }}", "{{ sanitize(value=[1, 2]) }}", "{{ hash(value=[major, 'x'], length=5) }}|{{ hash_int(value=semver_obj, length=5) }}",
              "{{ prefix(value=semver_obj, length=3) }}", "{{ prefix_if(value=[1], prefix='x') }}|{{ prefix_if(value=true, prefix='x') }}|{{ prefix_if(value=1.5, prefix='x') }}", "{{ sanitize(value=1.5) }}|{{ sanitize(value=-3) }}",
-             "{{ format_timestamp(format=\"%Y\") }}", "{{ format_timestamp(value='12', format=\"%Y\") }}", "{{ format_timestamp(value=true) }}", "{{ format_timestamp(value=-1, format='compact_date') }}", "{{ hash(length=3) }}", "{{ prefix(length=3) }}", "{{ sanitize() }}", "{{ sanitize(value=1, preset='uint', separator='x') }}", "none", "NULL",
+             "{{ format_timestamp(format=\"%Y\") }}", "{{ format_timestamp(value='12', format=\"%Y\") }}", "{{ format_timestamp(value=true) }}", "{{ format_timestamp(value=-1, format='compact_date') }}", "{{ hash(length=3) }}", "{{ prefix(length=3) }}", "{{ sanitize() }}",
+             # empty strings in every string argument (an empty separator is accepted today: it must still come back)
+             "{{ sanitize(value='feature/x-001', separator='') }}", "{{ sanitize(value=bumped_branch, separator='', max_length=4) }}", "{{ sanitize(value='', separator='') }}|{{ sanitize(value='--', separator='', lowercase=true) }}",
+             "{{ prefix_if(value='x', prefix='') }}|{{ prefix(value='', length=3) }}|{{ hash(value='', length=3) }}|{{ hash_int(value='', length=3) }}", "{{ format_timestamp(value=1, format='') }}", "{{ sanitize(value='a b', preset='') }}", "{{ sanitize(value=1, preset='uint', separator='x') }}", "none", "NULL",
              "", "   ", "{{ semver }}\n{{ pep440 }}", "{{ 99999999999999999999 }}", "{{ major + 18446744073709551615 }}", "{% set x = major %}{{ x }}",
              "{{ bumped_branch | upper | truncate(length=2) }}", "{{ bumped_timestamp | date(format=\"%Y\") }}", "{{ semver_obj.docker }}", "{{ dirty }}{{ distance }}"]
 RONS = ["(core:[var(Major)], extra_core:[], build:[])", "(core:[], extra_core:[], build:[])", "(core:[var(Minor), var(Major)], extra_core:[], build:[])",
@@ -419,8 +422,8 @@ def build_repo(path, rng):
         repo.tag("not-a-version")
     if rng.random() < 0.5:
         repo.commit()
-    if rng.random() < 0.4:
-        repo.make_dirty("modified")
+    if rng.random() < 0.5:
+        repo.make_dirty(rng.choice(["modified", "unmerged", "untracked_in_subdir"]))
     return repo
 
 
